@@ -530,11 +530,31 @@ func errorExitRule(c *core.Ctx, prop string) {
 			l := sliceLeaves(c.Env, res[0], 0)
 			real := false
 			for k := range l {
-				if strings.HasPrefix(k, "field:") || strings.HasPrefix(k, "call:") || strings.HasPrefix(k, "extract:") || strings.HasPrefix(k, "param:") || strings.HasPrefix(k, "load:") {
+				if strings.HasPrefix(k, "field:") || strings.HasPrefix(k, "call:") || strings.HasPrefix(k, "extract:") || strings.HasPrefix(k, "param:") {
 					real = true
 				}
 			}
-			c.Check(real, e.pkg+"."+e.fn+" success returns what it read: "+exitGuardsText(r), at(c, r), "", "a nil error is returned together with a value that derives from nothing ("+leavesList(l)+"): the caller takes an empty result for a successful read")
+			// a named result kept in a local: it must be assigned on every path to this return
+			if u, isLoad := res[0].(*ssa.UnOp); isLoad && real {
+				if al, isAlloc := u.X.(*ssa.Alloc); isAlloc {
+					isStore := func(in ssa.Instruction) bool {
+						st, ok := in.(*ssa.Store)
+						if !ok || rootOf(st.Addr) != ssa.Value(al) {
+							return false
+						}
+						// `return ca, …` with named results stores the result onto itself
+						if ld, isLd := st.Val.(*ssa.UnOp); isLd && ld.X == ssa.Value(al) {
+							return false
+						}
+						return true
+					}
+					q := core.PathQuery{Fn: fn, Target: func(in ssa.Instruction) bool { return in == ssa.Instruction(r) }, Barrier: isStore}
+					if w := q.Find(); w != nil {
+						real = false
+					}
+				}
+			}
+			c.Check(real, e.pkg+"."+e.fn+" success returns what it read: "+exitGuardsText(r), at(c, r), "", "a nil error is returned together with a value that is not assigned on every path to this return (or derives from nothing): the caller takes an empty result for a successful read; value sources: "+leavesList(l))
 		}
 		got := errorExits(fn, e.idx)
 		c.Check(strings.Join(got, " | ") == strings.Join(e.want, " | "), e.pkg+"."+e.fn+" fails only for the reviewed reasons", c.Pos(fn.Pos()),
